@@ -3,7 +3,7 @@
 import json, sys, os, shutil, glob, subprocess
 wt, name, caught = sys.argv[1], sys.argv[2], sys.argv[3]
 note = sys.argv[4] if len(sys.argv) > 4 else ""
-src = f"/tmp/wt/{wt}"
+src = os.environ.get("WT", "/tmp/wt") + f"/{wt}"
 dst = f"/verif/seeded/{name}"
 os.makedirs(dst, exist_ok=True)
 shutil.copy(f"{src}/patch.diff", f"{dst}/patch.diff")
